@@ -20,6 +20,15 @@ import (
 // vhLayoutValid checks the OCI layout predicate for one repository directory.
 // It returns "" or the name of the broken clause.
 func vhLayoutValid(repo string) string {
+	bad, _ := vhLayoutValidX(repo, "")
+	return bad
+}
+
+// vhLayoutValidX: entries of digest known (a manifest whose blob was deleted through the
+// blob API, a recorded finding) that lack their blob are reported separately, so that
+// the remaining clauses are still checked.
+func vhLayoutValidX(repo string, known digest.Digest) (string, bool) {
+	dangling := false
 	p := vhRoot + "/" + repo
 	holds := false
 	for _, f := range vos.List(p + "/blobs") {
@@ -33,32 +42,36 @@ func vhLayoutValid(repo string) string {
 		holds = true
 	}
 	if !holds {
-		return "" // a directory without content need not be a layout
+		return "", false // a directory without content need not be a layout
 	}
 	l := types.Layout{}
 	if lb := vos.Bytes(p + "/oci-layout"); lb == nil || json.Unmarshal(lb, &l) != nil || l.Version != "1.0.0" {
-		return "oci-layout"
+		return "oci-layout", dangling
 	}
 	if ixb == nil || json.Unmarshal(ixb, &ix) != nil {
-		return "index.json"
+		return "index.json", dangling
 	}
 	tags := map[string]bool{}
 	for _, d := range ix.Manifests {
 		if t := d.Annotations[types.AnnotRefName]; t != "" {
 			if tags[t] {
-				return "duplicate-tag"
+				return "duplicate-tag", dangling
 			}
 			tags[t] = true
 		}
 		if d.Digest.Validate() != nil {
-			return "entry-digest"
+			return "entry-digest", dangling
 		}
 		b := vos.Bytes(p + "/blobs/" + d.Digest.Algorithm().String() + "/" + d.Digest.Encoded())
 		if b == nil {
-			return "entry-without-blob"
+			if known != "" && d.Digest == known {
+				dangling = true
+				continue
+			}
+			return "entry-without-blob", dangling
 		}
 		if int64(len(b)) != d.Size || d.Digest.Algorithm().FromBytes(b) != d.Digest {
-			return "entry-size-or-digest"
+			return "entry-size-or-digest", dangling
 		}
 	}
 	for _, f := range vos.List(p + "/blobs") {
@@ -68,23 +81,23 @@ func vhLayoutValid(repo string) string {
 		case rest == "" || rest == "/":
 		case strings.HasSuffix(f, "/"):
 			if len(parts) != 1 || !digest.Algorithm(parts[0]).Available() {
-				return "blobs-layout"
+				return "blobs-layout", dangling
 			}
 		default:
 			if len(parts) != 2 || digest.Algorithm(parts[0]).FromBytes(vos.Bytes(f)).Encoded() != parts[1] {
-				return "blobs-layout"
+				return "blobs-layout", dangling
 			}
 		}
 	}
-	return ""
+	return "", dangling
 }
 
 type vhC10Docs struct {
-	x, y                    []byte
-	conf                    []byte
-	img1, img2, idx1, art1  []byte
-	idx2                    []byte // an index over idx1 (nested)
-	digs                    []digest.Digest
+	x, y                   []byte
+	conf                   []byte
+	img1, img2, idx1, art1 []byte
+	idx2                   []byte // an index over idx1 (nested)
+	digs                   []digest.Digest
 }
 
 func vhC10Build() *vhC10Docs {
@@ -122,6 +135,8 @@ func VH_C10_Layout() {
 	sm := mk(config.StoreMem)
 	steps := vh.Param("K", 2)
 	childDeleted := false
+	manifestBlobDeleted := map[string]bool{}
+	danglingSeen := false
 	if vh.Param("PREFIX", 0) == 1 {
 		// a populated start: image by tag, index over it, artifact, in repository a
 		for _, s := range []*Server{sd, sm} {
@@ -130,6 +145,9 @@ func VH_C10_Layout() {
 			vhPutManifest(s, "a", "t1", types.MediaTypeOCI1Manifest, d.img1)
 			vhPutManifest(s, "a", "ti", types.MediaTypeOCI1ManifestList, d.idx1)
 			vhPutManifest(s, "a", digest.Canonical.FromBytes(d.art1).String(), types.MediaTypeOCI1Manifest, d.art1)
+			// a second image under its own tag: the last entry of index.json is a tagged one
+			vhPushBlob(s, "a", d.y)
+			vhPutManifest(s, "a", "t2", types.MediaTypeOCI1Manifest, d.img2)
 		}
 	}
 	if vh.Param("PREFIX", 0) == 2 {
@@ -146,12 +164,12 @@ func VH_C10_Layout() {
 	}
 	for n := 0; n < steps; n++ {
 		repo := repos[vh.Choice("repo", 2)]
-		op := vh.Choice("op", 10)
+		op := vh.Choice("op", 11)
 		sha512 := false
 		if op <= 2 {
 			sha512 = vh.Bool("sha512")
 		}
-		names := []string{"push-blob-x", "push-blob-y+conf", "push-image", "push-index", "push-artifact", "delete-tag", "delete-digest", "delete-blob", "collect", "open-session"}
+		names := []string{"push-blob-x", "push-blob-y+conf", "push-image", "push-index", "push-artifact", "delete-tag", "delete-digest", "delete-blob", "collect", "open-session", "delete-manifest-blob"}
 		vh.Note(names[op] + " " + repo)
 		apply := func(s *Server) int {
 			switch op {
@@ -190,6 +208,10 @@ func VH_C10_Layout() {
 				return 0
 			case 9:
 				return vhDo(s, "POST", "/v2/"+repo+"/blobs/uploads/", nil, nil, nil).Status()
+			case 10:
+				// the blob of the image manifest is deleted through the blob API: its index
+				// entry loses its backing content (a later collection drops the entry)
+				return vhDo(s, "DELETE", "/v2/"+repo+"/blobs/"+digest.Canonical.FromBytes(d.img1).String(), nil, nil, nil).Status()
 			}
 			return 0
 		}
@@ -197,15 +219,32 @@ func VH_C10_Layout() {
 		if op == 6 && vhGetManifest(sd, repo, digest.Canonical.FromBytes(d.idx1).String()).Status() == 200 {
 			childDeleted = true
 		}
-		cd := apply(sd)
-		cm := apply(sm)
+		cd, cm := 0, 0
+		if op == 8 {
+			// one tick reaches the collection goroutines of both servers: one pass each
+			vhTick()
+		} else {
+			cd = apply(sd)
+			cm = apply(sm)
+		}
 		vh.Tag("step", names[op])
 		vh.Assert(cd == cm, "C10.stores-answer-differently")
 		// (i) the directory is a valid layout describing the API state
+		if op == 10 && cd == 202 {
+			manifestBlobDeleted[repo] = true
+		}
 		for _, r := range repos {
-			if bad := vhLayoutValid(r); bad != "" {
+			known := digest.Digest("")
+			if manifestBlobDeleted[r] {
+				known = digest.Canonical.FromBytes(d.img1)
+			}
+			bad, dangling := vhLayoutValidX(r, known)
+			if bad != "" {
 				vh.Tag("clause", bad)
 				vh.Assert(false, "C10.directory-not-a-valid-layout")
+			}
+			if dangling {
+				danglingSeen = true // reported at the end of the path (recorded finding)
 			}
 		}
 		// (iii) the memory store gives the same answers
@@ -231,4 +270,9 @@ func VH_C10_Layout() {
 	}
 	vh.Note("steps=" + strconv.Itoa(steps))
 	vh.Cover("C10.layout-end")
+	if danglingSeen {
+		vh.Tag("clause", "entry-without-blob")
+		vh.Tag("scenario", "manifest-blob-deleted-through-blob-api")
+		vh.Assert(false, "C10.directory-not-a-valid-layout")
+	}
 }
